@@ -116,6 +116,10 @@ pub struct Case {
     /// the upfront script (d = 0), another allowlisted script (1) or a wallet address (2)
     #[serde(default)]
     pub wire: Option<(u8, u8)>,
+    /// with remove_allowlisted: how the allowlisted script is removed (see world::allowlist_edit:
+    /// alone, next to an entry that was never listed, in either order, with or without a restart)
+    #[serde(default)]
+    pub allow_edit: u8,
 }
 
 fn delta_strat() -> impl Strategy<Value = Delta> {
@@ -270,11 +274,11 @@ impl Prop for C07 {
             (any::<bool>(), any::<bool>(), prop_oneof![3 => Just(Upfront::None), 1 => Just(Upfront::Wallet), 1 => Just(Upfront::Allowlisted)], delta_strat(), any::<bool>()),
             (prop::bool::weighted(0.12), prop::bool::weighted(0.12), prop::bool::weighted(0.04), prop::bool::weighted(0.04), prop::bool::weighted(0.2)),
             (any::<bool>(), kind_strat(), prop::bool::weighted(0.8), delta_strat(), any::<bool>()),
-            (prop_oneof![1 => Just(RateSel::MinMinus3), 2 => Just(RateSel::Min), 5 => Just(RateSel::Mid), 2 => Just(RateSel::Max), 1 => Just(RateSel::MaxPlus3), 1 => Just(RateSel::Zero)], any::<bool>(), prop::bool::weighted(0.08), prop::bool::weighted(0.1), prop::bool::weighted(0.12), prop::bool::weighted(0.4), prop_oneof![12 => Just(None), 1 => (0u8..2, 0u8..3).prop_map(Some)]),
+            (prop_oneof![1 => Just(RateSel::MinMinus3), 2 => Just(RateSel::Min), 5 => Just(RateSel::Mid), 2 => Just(RateSel::Max), 1 => Just(RateSel::MaxPlus3), 1 => Just(RateSel::Zero)], any::<bool>(), prop::bool::weighted(0.08), prop::bool::weighted(0.1), prop::bool::weighted(0.12), prop::bool::weighted(0.4), prop_oneof![12 => Just(None), 1 => (0u8..2, 0u8..3).prop_map(Some)], 1u8..7),
         )
-            .prop_map(|((anchors, outbound, upfront, view_delta, view_delta_neg), (htlc_in_holder, htlc_in_cp, mh, mc, remove_allowlisted), (phase1, holder_script, hseu, prop_delta, prop_delta_neg), (rate, holder_first, extra_output, cp_zero, cp_takes_holder_share, holder_replaced, wire))| Case {
+            .prop_map(|((anchors, outbound, upfront, view_delta, view_delta_neg), (htlc_in_holder, htlc_in_cp, mh, mc, remove_allowlisted), (phase1, holder_script, hseu, prop_delta, prop_delta_neg), (rate, holder_first, extra_output, cp_zero, cp_takes_holder_share, holder_replaced, wire, allow_edit))| Case {
                 anchors, outbound, upfront, view_delta, view_delta_neg, htlc_in_holder, htlc_in_cp, missing_holder_commitment: mh, missing_cp_commitment: mc, remove_allowlisted,
-                phase1, holder_script, holder_script_equals_upfront: hseu, prop_delta, prop_delta_neg, rate, holder_first, extra_output, cp_zero, cp_takes_holder_share, holder_replaced, wire,
+                phase1, holder_script, holder_script_equals_upfront: hseu, prop_delta, prop_delta_neg, rate, holder_first, extra_output, cp_zero, cp_takes_holder_share, holder_replaced, wire, allow_edit,
             })
             .boxed()
     }
@@ -381,8 +385,10 @@ impl Prop for C07 {
         // allowlist edit
         let mut allowlisted_now = true;
         if case.remove_allowlisted {
-            w.node.remove_allowlist(&[format!("address:{}", allow_addr)]).expect("remove");
-            allowlisted_now = false;
+            let absent = Address::p2wpkh(&CompressedPublicKey(bitcoin::secp256k1::PublicKey::from_secret_key(&secp, &bitcoin::secp256k1::SecretKey::from_slice(&[0x3c; 32]).unwrap())), Network::Testnet);
+            let kind = if case.allow_edit == 0 { 1 } else { case.allow_edit };
+            allowlisted_now = crate::world::allowlist_edit(&mut w, &format!("address:{}", allow_addr), &format!("address:{}", absent), kind);
+            st.class(format!("allowlist_edit:{}", kind % 7));
         }
 
         // --- proposal ---
